@@ -64,7 +64,7 @@ def build(img, prof, P=None, size_bytes=None):
 
 def make_trace(tid, rng, nops=30, **opt):
     """Random real-geometry image + random op sequence on the real object -> trace dict."""
-    bs = rng.choice([1 << 20, 1 << 20, 65536, 4096, 2 << 20])
+    bs = rng.choice([1 << 20, 1 << 20, 65536, 4096, 2 << 20, 12288, 24576, 3 << 20])   # incl. sizes that are not a power of two
     n = rng.randrange(2, 40 if bs <= (1 << 20) else 12)
     if opt.get("many"):  # a block map of several hundred entries
         bs, n = rng.choice([4096, 65536]), rng.randrange(200, 700)
